@@ -181,7 +181,7 @@ def fieldWritesUrl : List (String × String) := [
 
 def fieldWritesCanon : List (String × String) := []
 
-def baseUrlUses : List String := ["baseUrl != nil", "baseUrl.Clone()"]
+def baseUrlUses : List String := ["*ast.AssignStmt"]
 
 def spMethods : List (String × Bool × Bool) := [
   ("Append", true, true),
